@@ -30,7 +30,6 @@ import (
 	"github.com/99designs/gqlgen/graphql"
 	"github.com/99designs/gqlgen/graphql/handler"
 	"github.com/99designs/gqlgen/graphql/handler/extension"
-	"github.com/99designs/gqlgen/graphql/handler/transport"
 	"github.com/go-viper/mapstructure/v2"
 	"github.com/vektah/gqlparser/v2/ast"
 	"github.com/vektah/gqlparser/v2/gqlerror"
@@ -105,15 +104,19 @@ type server struct {
 	qc        *recCache[*ast.QueryDocument]
 	apq       *recCache[string]
 	pre, post *observer
+	hdrName   string  // header configuration of the transports (hdrcfg.go)
+	hdr       hdrMaps // the map objects the transports were configured with
+	lastDrift string
 }
 
-func newServer(qcKind, apqKind string, seedAPQ map[string]string) *server {
-	s := &server{pre: &observer{name: "pre"}, post: &observer{name: "post"}}
+func newServer(qcKind, apqKind, hdrName string, seedAPQ map[string]string) *server {
+	s := &server{pre: &observer{name: "pre"}, post: &observer{name: "post"}, hdrName: hdrName, hdr: mkHdrCfg(hdrName)}
 	s.h = handler.New(echoSchema{})
-	s.h.AddTransport(transport.GET{})
-	s.h.AddTransport(transport.POST{})
-	s.h.AddTransport(transport.UrlEncodedForm{})
-	s.h.AddTransport(transport.GRAPHQL{})
+	tg, tp, tf, tq := s.hdr.transports()
+	s.h.AddTransport(tg)
+	s.h.AddTransport(tp)
+	s.h.AddTransport(tf)
+	s.h.AddTransport(tq)
 	s.qc = newRec[*ast.QueryDocument](mkCache[*ast.QueryDocument](qcKind), func(*ast.QueryDocument) string { return "" })
 	s.h.SetQueryCache(s.qc)
 	inner := mkCache[string](apqKind)
@@ -247,6 +250,7 @@ type record struct {
 	reused   bool
 	docsBad  []string
 	unlawful []string
+	drift    string // the transports' configuration changed while serving ("" = no)
 	cfg      string
 }
 
@@ -273,19 +277,43 @@ func (s *server) sequential(sid, idx int, q *rq, cfg string) *record {
 	}
 	r.docsBad = s.qc.changedDocs()
 	r.unlawful = append(s.qc.unlawful, s.apq.unlawful...)
+	if d := s.configDrift(); d != s.lastDrift { // reported on the request that changed it
+		r.drift, s.lastDrift = d, d
+	}
 	return r
 }
 
-// oracle: a freshly constructed server, uncached documents, empty pool
-func oracle(q *rq, hitKey, hitVal string, hit bool) response {
+// oracle: a freshly constructed server (same configuration, newly built), uncached documents, empty pool
+func oracle(q *rq, hdrName, hitKey, hitVal string, hit bool) response {
 	runtime.GC()
 	runtime.GC()
 	seed := map[string]string{}
-	if hit {
+	// the one memory the property permits: a persisted-query REGISTRATION, i.e. a text stored under its own
+	// SHA-256 (the only thing a request that was not rejected can have stored). Anything else the stateful
+	// server's lookup returned is not excused: the fresh server then answers PersistedQueryNotFound.
+	if hit && shaOf(hitVal) == hitKey {
 		seed[hitKey] = hitVal
 	}
-	return newServer("none", "map", seed).serve(q)
+	return newServer("none", "map", hdrName, seed).serve(q)
 }
+
+// cfg strings: "<query cache>/<apq cache>[/<header configuration>]"
+func splitCfg(c string) (qc, apq, hdr string) {
+	p := strings.Split(c, "/")
+	qc, apq, hdr = "map", "map", "none"
+	if len(p) > 0 && p[0] != "" {
+		qc = p[0]
+	}
+	if len(p) > 1 && p[1] != "" {
+		apq = p[1]
+	}
+	if len(p) > 2 && p[2] != "" {
+		hdr = p[2]
+	}
+	return
+}
+
+func hdrOfCfg(c string) string { _, _, h := splitCfg(c); return h }
 
 // wireRq: a request as written into replay files
 type wireRq struct {
@@ -312,19 +340,20 @@ func replayHistory(path string) {
 	if err := json.Unmarshal(b, &h); err != nil {
 		panic(err)
 	}
-	cfg := strings.SplitN(h.Cfg+"/map", "/", 3)
-	srv := newServer(cfg[0], cfg[1], nil)
+	cqc, capq, chdr := splitCfg(h.Cfg)
+	cfgName := cqc + "/" + capq + "/" + chdr
+	srv := newServer(cqc, capq, chdr, nil)
 	var recs []*record
 	for i, w := range h.Reqs {
 		q := &rq{kind: w.Kind, method: w.Method, rawURL: w.RawURL, hdrs: w.Hdrs, body: w.Body, enc: w.Enc, tags: []string{"replay"}}
 		if q.hdrs == nil {
 			q.hdrs = http.Header{}
 		}
-		recs = append(recs, srv.sequential(0, i, q, cfg[0]+"/"+cfg[1]))
+		recs = append(recs, srv.sequential(0, i, q, cfgName))
 	}
-	fmt.Fprintf(out, "S\t0\t%s\treplay\n", h.Cfg)
+	fmt.Fprintf(out, "S\t0\t%s\treplay\n", cfgName)
 	for _, r := range recs {
-		emit(r, oracle(r.q, r.hitKey, r.hitVal, r.apqHit), "seq")
+		emit(r, oracle(r.q, chdr, r.hitKey, r.hitVal, r.apqHit), "seq")
 	}
 }
 
@@ -353,6 +382,9 @@ func emit(r *record, orc response, mode string) {
 	}
 	if len(r.unlawful) > 0 {
 		extra += " unlawful-cache:" + hx(strings.Join(r.unlawful, "; "))
+	}
+	if r.drift != "" {
+		extra += " config-mutated:" + hx(r.drift)
 	}
 	if extra == "" {
 		extra = "-"
@@ -458,19 +490,25 @@ func main() {
 		sid := 0
 		for _, d := range directedHistories() {
 			cfg := serverCfgs[sid%len(serverCfgs)]
-			srv := newServer(cfg[0], cfg[1], nil)
-			fmt.Fprintf(out, "S\t%d\t%s/%s\tdirected:%s\n", sid, cfg[0], cfg[1], d.name)
+			cfgName := cfg[0] + "/" + cfg[1] + "/" + d.hdrCfg()
+			srv := newServer(cfg[0], cfg[1], d.hdrCfg(), nil)
+			fmt.Fprintf(out, "S\t%d\t%s\tdirected:%s\n", sid, cfgName, d.name)
 			for i, q := range d.reqs {
 				notePQ(q)
-				recs = append(recs, srv.sequential(sid, i, q, cfg[0]+"/"+cfg[1]))
+				recs = append(recs, srv.sequential(sid, i, q, cfgName))
 			}
 			sid++
 		}
 		for n := 0; n < nseq; n++ {
 			g := &gen{r: root.Fork()}
 			cfg := serverCfgs[g.pick(len(serverCfgs))]
-			srv := newServer(cfg[0], cfg[1], nil)
-			fmt.Fprintf(out, "S\t%d\t%s/%s\trandom\n", sid, cfg[0], cfg[1])
+			hdrName := "none" // the default server in 1 of 3 histories, otherwise any header configuration
+			if g.pick(3) != 0 {
+				hdrName = hdrCfgNames[g.pick(len(hdrCfgNames))]
+			}
+			cfgName := cfg[0] + "/" + cfg[1] + "/" + hdrName
+			srv := newServer(cfg[0], cfg[1], hdrName, nil)
+			fmt.Fprintf(out, "S\t%d\t%s\trandom\n", sid, cfgName)
 			L := seqLen/2 + g.pick(seqLen)
 			for i := 0; i < L; i++ {
 				q := g.request()
@@ -482,24 +520,28 @@ func main() {
 						}
 					}
 				}
-				recs = append(recs, srv.sequential(sid, i, q, cfg[0]+"/"+cfg[1]))
+				recs = append(recs, srv.sequential(sid, i, q, cfgName))
 			}
 			sid++
 			if n%8 == 7 || n == nseq-1 {
 				// oracle for the histories served so far (the two GC cycles per oracle request also empty the
 				// pool, so this is done between histories, never inside one); records are released afterwards
 				for _, r := range recs {
-					emit(r, oracle(r.q, r.hitKey, r.hitVal, r.apqHit), "seq")
+					emit(r, oracle(r.q, hdrOfCfg(r.cfg), r.hitKey, r.hitVal, r.apqHit), "seq")
 				}
 				recs = nil
 				fmt.Fprintf(out, "P\tpoolgc\n")
 			}
 		}
 	}
-	// ---- concurrent batches against one server
+	// ---- concurrent batches against one server (everything so far is flushed first: unsynchronised writes to
+	// shared state can kill the process with "fatal error: concurrent map writes", which cannot be recovered)
+	out.Flush()
 	for b := 0; b < nbatch; b++ {
 		g := &gen{r: root.Fork(), conc: true, pre: []int{0, 2, 3, 4, 5}}
-		srv := newServer("lru1000", "lru1000", nil)
+		hdrName := hdrCfgNames[b%len(hdrCfgNames)]
+		cfgName := "lru1000/lru1000/" + hdrName
+		srv := newServer("lru1000", "lru1000", hdrName, nil)
 		for _, i := range g.pre { // registrations before the batch
 			t := catalogue[i].text
 			srv.serve(&rq{kind: "post", method: "POST", hdrs: http.Header{"Content-Type": {"application/json"}},
@@ -530,14 +572,15 @@ func main() {
 		srv.qc.take()
 		bad := srv.qc.changedDocs()
 		unl := append(srv.qc.unlawful, srv.apq.unlawful...)
-		fmt.Fprintf(out, "S\t%d\tlru1000/lru1000\tconcurrent\n", 100000+b)
+		drift := srv.configDrift()
+		fmt.Fprintf(out, "S\t%d\t%s\tconcurrent\n", 100000+b, cfgName)
 		for i, q := range qs {
 			runtime.GC()
 			runtime.GC()
-			orc := newServer("none", "map", seedAPQ).serve(q)
-			r := &record{sid: 100000 + b, idx: i, q: q, resp: resps[i], obs: "-", cfg: "lru1000/lru1000"}
+			orc := newServer("none", "map", hdrName, seedAPQ).serve(q)
+			r := &record{sid: 100000 + b, idx: i, q: q, resp: resps[i], obs: "-", cfg: cfgName}
 			if i == 0 {
-				r.docsBad, r.unlawful = bad, unl
+				r.docsBad, r.unlawful, r.drift = bad, unl, drift
 			}
 			emit(r, orc, "conc")
 		}
